@@ -85,7 +85,61 @@ impl Config {
             mask: g("mask"),
         })
     }
+    /// The four setters are called in an order that is a deterministic function of the configuration (all 24
+    /// orders occur over a workload), and a third of the time a setter is first called with ANOTHER value
+    /// (the last value wins): a configuration is its final option values, not the way they were reached.
     pub fn builder(&self) -> QRBuilder {
+        let mut h = oracle::rng::mix(self.input.len() as u64 ^ 0x5e77e2, oracle::rng::fnv(&self.input[..self.input.len().min(16)]));
+        for x in [self.mode, self.level, self.version, self.mask] {
+            h = oracle::rng::mix(h, x.map_or(99, |v| v as u64));
+        }
+        let mut rng = oracle::rng::Rng::new(h);
+        let mut order = [0usize, 1, 2, 3];
+        for i in (1..4).rev() {
+            order.swap(i, rng.below(i + 1));
+        }
+        let mut b = QRBuilder::new(self.input.clone());
+        for which in order {
+            let decoy = rng.chance(1, 3);
+            match which {
+                0 => {
+                    if let Some(m) = self.mode {
+                        if decoy {
+                            b.mode(MODES[2]);
+                        }
+                        b.mode(MODES[m]);
+                    }
+                }
+                1 => {
+                    if let Some(l) = self.level {
+                        if decoy {
+                            b.ecl(LEVELS[(l + 1 + rng.below(3)) % 4]);
+                        }
+                        b.ecl(LEVELS[l]);
+                    }
+                }
+                2 => {
+                    if let Some(v) = self.version {
+                        if decoy {
+                            b.version(VERSIONS[rng.below(40)]);
+                        }
+                        b.version(VERSIONS[v - 1]);
+                    }
+                }
+                _ => {
+                    if let Some(m) = self.mask {
+                        if decoy {
+                            b.mask(MASKS[(m + 1 + rng.below(7)) % 8]);
+                        }
+                        b.mask(MASKS[m]);
+                    }
+                }
+            }
+        }
+        b
+    }
+    /// one call per option in a fixed order (reference of the history monitor)
+    pub fn builder_canonical(&self) -> QRBuilder {
         let mut b = QRBuilder::new(self.input.clone());
         if let Some(m) = self.mode {
             b.mode(MODES[m]);
@@ -195,6 +249,11 @@ pub fn outcome_of(r: Result<Result<QRCode, fast_qr::qr::QRCodeError>, String>) -
 /// Build through the public API.
 pub fn build(cfg: &Config) -> Outcome {
     outcome_of(guarded(|| cfg.builder().build()))
+}
+
+/// build through one setter call per option in a fixed order (reference of the history monitor)
+pub fn build_canonical(cfg: &Config) -> Outcome {
+    outcome_of(guarded(|| cfg.builder_canonical().build()))
 }
 
 pub struct Recorded {
